@@ -293,8 +293,8 @@ Theorem C02_generic_criterion : forall (T : Type) (K : kops T) (p : profile) (me
   (forall a b c, k_ltb K a b = true -> k_ltb K b c = true -> k_ltb K a c = true) ->
   (forall a b c, k_ltb K a b = false -> k_ltb K b c = false -> k_ltb K a c = false) ->
   (forall a, k_eqb K a a = true) ->
-  (forall va vb md sa sb sx, k_ltb K va (k_max K) = true -> k_ltb K vb (k_max K) = true -> k_ltb K md (k_max K) = true ->
-     k_ltb K (k_upd K va vb md sa sb sx) (k_max K) = true) ->
+  (forall va vb md sa sb sx, k_ltb K va (k_inf K) = true -> k_ltb K vb (k_inf K) = true -> k_ltb K md (k_inf K) = true ->
+     k_ltb K (k_upd K va vb md sa sb sx) (k_inf K) = true) ->
   forall crit : mtree -> mtree -> T -> Prop,
   (forall A B v, crit A B v -> crit B A v) ->
   (forall X A B va vb md, crit X A va -> crit X B vb -> crit A B md ->
@@ -302,7 +302,7 @@ Theorem C02_generic_criterion : forall (T : Type) (K : kops T) (p : profile) (me
   (uses_sizes_ab meth = false ->
      forall va vb md sa sb sa' sb' sx, k_upd K va vb md sa sb sx = k_upd K va vb md sa' sb' sx) ->
   forall s d m n s' d' m' M0,
-  Forall (fun v => k_ltb K v (k_max K) = true) (square_all K m) ->
+  Forall (fun v => k_ltb K v (k_inf K) = true) (square_all K m) ->
   generic_with K p meth s d m n = Ok (s', d', m') ->
   prologue p (square_all K m) n = Ok M0 ->
   (forall x y v, x <> y -> x < m_obs M0 -> y < m_obs M0 -> wcell M0 x y = Some v -> crit (Leaf x) (Leaf y) v) ->
